@@ -393,3 +393,26 @@ SPECS += [
                                      "argtypes": [MASK, MASK, "Bool", "Opt[Obj]", "Opt[Obj]", MASKEQ], "ret": "Bool"}},
          props=["C07"]),
 ]
+
+
+# ---- sdk/output.py, adapters/time*.py : a publication enters the history / the adapter's buffer -------------------
+SPECS += [
+    dict(lean="Output_push_data", path="sdk/output.py", qual="Output.push_data", group="Output",
+         fields={"has_targets": "Bool", "_out_infos_exchanged": "Int", "_connected_inputs": "Dict[Obj,Opt[Time]]",
+                 "data": DATA, "is_static": "Bool", "_time": "Opt[Time]"},
+         params={"time": "Time"}, ignore_params=["data"], extra_params={"prepared": "Val"}, ret="Unit",
+         consts={"tools.prepare(data, self.info, report_conversion=True)": ("(prepared, (none : Option Unit))", "Tuple[Val,Opt[Unit]]")},
+         calls={"self._pack": "id"}, locals={"xdata": "Val", "conv": "Opt[Unit]", "d": "Val"},
+         # the non-static path (the static one: slice `push_data_gate` and the model `SOut`)
+         assume_false=["self.is_static", "isinstance(self.data[-1][1], str)", "np.may_share_memory(d.data, xdata.data)"],
+         drop_calls=["_check_time", "self.notify_targets", "self.logger.profile"], props=["C08", "C09", "C20"]),
+    dict(lean="TimeCachingAdapter__source_updated", path="adapters/time.py", qual="TimeCachingAdapter._source_updated",
+         group="TimeBase", fields={"data": "List[Tuple[Time,Val]]"}, params={"time": "Time"}, extra_params={"pulled": "Val"},
+         ret="Unit", consts={"dtools.strip_time(self.pull_data(time, self), self._input_info.grid)": ("pulled", "Val")},
+         calls={"self._pack": "id"}, drop_calls=["check_time"], props=["C11"]),
+    dict(lean="TimeIntegrationAdapter__source_updated", path="adapters/time_integration.py",
+         qual="TimeIntegrationAdapter._source_updated", group="Integ",
+         fields={"data": "List[Tuple[Time,Val]]", "_prev_time": "Opt[Time]"}, params={"time": "Time"}, extra_params={"pulled": "Val"},
+         ret="Unit", consts={"tools.strip_time(self.pull_data(time, self), self._input_info.grid)": ("pulled", "Val")},
+         calls={"self._pack": "id"}, drop_calls=["check_time"], props=["C12"]),
+]
